@@ -56,6 +56,7 @@ EXPECTED_PROBES = [
     "small_backward_clock_step",
     "large_backward_clock_step",
     "nxdomain_all_candidates",
+    "nxdomain_at_end_of_cname_chain",
     "yxdomain",
     "no_answer",
     "tierB_runs",
@@ -155,8 +156,12 @@ def _gen_outcome(rng):
         o["ttl"] = rng.choice([0, 1, 30, 300])
     if k == "cname":
         o["len"] = rng.choice([1, 1, 2, 3, 14, 15, 16, 17])
-        o["final"] = rng.random() < 0.8
+        o["final"] = rng.random() < 0.7
         o["cttl"] = rng.choice([5, 100, 1000])
+        if not o["final"]:
+            # a negative answer at the end of the chain: the SOA belongs to the *target's* zone
+            o["soa"] = rng.choice([None, [60, 30], [3, 3600], [2000, 2]])
+            o["nx"] = rng.random() < 0.4
     if k in ("nodata", "nxdomain"):
         o["soa"] = rng.choice([None, [60, 30], [10, 3600], [0, 0]])
     if k == "slow":
@@ -259,6 +264,11 @@ def build_response(request, o, idx, tcp):
                 name = tgt
             if o["final"]:
                 _add_answer(r, name, q, o["ttl"], idx)
+            else:
+                if o.get("soa") is not None:
+                    r.authority.append(dns.rrset.from_text(dns.name.from_text("chain.test."), o["soa"][0], "IN", "SOA", f"ns. host. 1 2 3 4 {o['soa'][1]}"))
+                if o.get("nx"):
+                    r.set_rcode(dns.rcode.NXDOMAIN)
     elif k == "cname_loop":
         if q.rdtype == dns.rdatatype.CNAME:
             _add_answer(r, q.name, q, 60, idx)
@@ -511,7 +521,11 @@ def _m_min_ttl(o, rdtype):
             return ("broken", None)
         if o["final"]:
             return ("answer", min(o["cttl"], o["ttl"]))
-        return ("nodata", o["cttl"])  # chain ends without an answer; no SOA is found
+        # the chain ends without an answer: negative TTL from the SOA covering the chain's end
+        soa = o.get("soa")
+        if soa is None:
+            return ("nodata", o["cttl"])
+        return ("nodata", min(o["cttl"], soa[0], soa[1]))
     if k == "cname_loop":
         if rdtype == "CNAME":
             return ("answer", 60)
@@ -639,6 +653,14 @@ def model_run(case, res_states=None):
                             servers.remove(cur)
                         else:
                             retry_tcp = True
+                        continue
+                    if k == "cname" and rdtype != "CNAME" and not o["final"] and o.get("nx") and o["len"] < MAX_CHAIN:
+                        kind, ttl = _m_min_ttl(o, rdtype)
+                        if cache is not None:
+                            cache[(cand.lower(), "ANY")] = {"qname": cand, "exp": now + ttl, "rrset": False, "nx": True, "o": o, "ns": cur, "rdtype": "ANY"}
+                        nx_count += 1
+                        probes.append("nxdomain_at_end_of_cname_chain")
+                        done = True
                         continue
                     if k in ("answer", "truncated", "slow", "cname", "nodata", "not_response", "cname_loop", "two_questions"):
                         if k == "not_response":
